@@ -17,6 +17,9 @@ WITNESS = {
            ["AppCheckpoint", "RESTART"], ["AppWrite", 6], ["LsOpen", "new"], ["LsSyncAndWait"]],
     "G1": [["LsOpen", "new"], ["AppWrite", 2], ["LsSyncAndWait"], ["CkStart", "TRUNCATE"], ["AppWrite", 3], ["CkStep"], ["CkStep"],
            ["CkStep"], ["CkStep"], ["AppBegin"], ["AppSpill", 1, 1], ["CkStep"], ["AppCommit"], ["AppWrite", 5], ["LsSyncAndWait"]],
+    "S1": [["LsOpen", "new"], ["AppWrite", 1], ["LsSyncAndWait"], ["LsClose"], ["SaveAll"], ["LsOpen", "new"], ["AppWrite", 1],
+           ["LsSyncAndWait"], ["LsClose"], ["RestoreAll"], ["LsOpen", "new"], ["AppWrite", 2], ["LsSyncAndWait"], ["AppWrite", 3],
+           ["LsSyncAndWait"], ["LsClose"]],
     "F3": [["LsOpen", "new"]] + [["AppGrow", 1], ["LsSyncAndWait"]] * 5 + [["LsReset"], ["AppWrite", 3], ["LsSyncAndWait"]],
 }
 
@@ -28,7 +31,7 @@ PLANS = {
         dump=("Dump_Core.cfg", 250, 2500),
         random=dict(n=80, n_thorough=800, length=28, with_down=False, with_state_loss=False),
         invariants=["C01_RestoreEqualsSource", "C01_RestoreIntegrity"],
-        witnesses=["F1", "F2", "F3", "G1"],
+        witnesses=["F1", "F2", "F3", "G1", "S1"],
         nontrivial="distinct schedule with at least one acknowledgement after application writes (restore compared with the source)",
     ),
     "C04": dict(
@@ -39,7 +42,7 @@ PLANS = {
         random=dict(n=200, n_thorough=1200, length=34, with_down=True, with_state_loss=True),
         directed=True,
         invariants=["C04_AckMeansReplicaAtLocalPos", "C04_ResnapshotAfterLoss", "C01_RestoreEqualsSource"],
-        witnesses=["F1", "F2", "F3"],
+        witnesses=["F1", "F2", "F3", "S1"],
         nontrivial="distinct schedule in which litestream was stopped/reset/lost state and application activity happened before the next acknowledgement",
     ),
     "C02": dict(
@@ -155,7 +158,7 @@ def build_cases(plan, tier, seed, wd, rep):
         av = ["none", "incremental", "full"][(i // len(sizes)) % 3] if label == "random" else "none"
         cfg = corelib.mk_cfg(seed * 100003 + i, page_size=ps, auto_vacuum=av, rows=6,
                              control=bool(plan.get("control")), audit=bool(plan.get("audit")),
-                             init_ckpt=(i % 2 == 0),
+                             init_ckpt=(i % 2 == 0) and label != "witness:S1",
                              # MaxSyncWALBytes: unlimited / one frame / three frames (chunked syncs, bounded shutdown sync)
                              max_bytes=[0, ps + 24, 3 * (ps + 24)][i % 3] if not label.startswith("witness") else 0)
         # the model's Close/ack needs an initialised DB: make sure a schedule starts litestream
